@@ -138,13 +138,15 @@ func (g *gen) genFunc(typ types.Type) error {
 
 func (g *gen) genStatement(typ types.Type, this, that string) error {
 	p := g.printer
+	// an alias is the type it stands for: look at that type, not at the alias node
+	typ = types.Unalias(typ)
 	if canCopy(typ) {
 		p.P("%s = %s", that, this)
 		return nil
 	}
 	switch ttyp := typ.Underlying().(type) {
 	case *types.Pointer:
-		reftyp := ttyp.Elem()
+		reftyp := types.Unalias(ttyp.Elem())
 		thisref, thatref := "*"+this, "*"+that
 
 		var objGetter derive.ObjectGetter
